@@ -23,6 +23,8 @@ pub struct Case {
     pub mid_base: u16,
     /// request code of the upload (0.03 PUT in U1/U2; U4 varies it)
     pub method: u8,
+    /// message type of every request of the upload (0 CON in U1/U2; U4 also runs NON)
+    pub mtype: u8,
 }
 
 fn case_json(c: &Case, budget: usize) -> Json {
@@ -34,17 +36,18 @@ fn case_json(c: &Case, budget: usize) -> Json {
         .set("deliveries_per_block", c.dups.iter().map(|d| *d as u64).collect::<Vec<_>>())
         .set("first_message_id", c.mid_base)
         .set("method", refmodel::registries::dotted(c.method))
+        .set("request_type", if c.mtype == 0 { "CON" } else { "NON" })
         .set("abandoned_predecessor_blocks", c.pred_blocks)
         .set("predecessor_block_size", rb::size(if c.pred_bigger { c.szx + 1 } else { c.szx }))
 }
 
 fn put(mid: u16, block1: Option<(u32, bool, u8)>, payload: &[u8]) -> Vec<u8> {
-    req(0x03, mid, block1, payload)
+    req(0x03, 0, mid, block1, payload)
 }
 
-fn req(method: u8, mid: u16, block1: Option<(u32, bool, u8)>, payload: &[u8]) -> Vec<u8> {
+fn req(method: u8, mtype: u8, mid: u16, block1: Option<(u32, bool, u8)>, payload: &[u8]) -> Vec<u8> {
     let token = [0xC0, (mid >> 8) as u8, mid as u8];
-    request_bytes(0, method, mid, &token, &["up", "load"], &[(12, vec![42])], block1, None, payload)
+    request_bytes(mtype, method, mid, &token, &["up", "load"], &[(12, vec![42])], block1, None, payload)
 }
 
 /// PUT first (the method of U1/U2), then the other methods that carry a body: POST, FETCH, PATCH, iPATCH.
@@ -79,7 +82,7 @@ pub fn upload(c: &Case, rep: &mut Report) -> Result<&'static str, (String, Strin
         let pbs = rb::size(pszx);
         for k in 0..c.pred_blocks {
             mid = mid.wrapping_add(1);
-            let x = srv.exchange(1, &req(c.method, mid, Some((k as u32, true, pszx)), &vec![0xEE; pbs]), &app);
+            let x = srv.exchange(1, &req(c.method, c.mtype, mid, Some((k as u32, true, pszx)), &vec![0xEE; pbs]), &app);
             if let Some((stage, pn)) = &x.panic {
                 return Err((format!("C09/panic@{}", pn.site()), format!("{:?} (predecessor block {}): {}", stage, k, pn.message)));
             }
@@ -92,7 +95,7 @@ pub fn upload(c: &Case, rep: &mut Report) -> Result<&'static str, (String, Strin
         let chunk = &the_body[(k * bs).min(c.body_len)..((k + 1) * bs).min(c.body_len)];
         let more = k + 1 < n;
         mid = mid.wrapping_add(1);
-        let bytes = req(c.method, mid, Some((k as u32, more, c.szx)), chunk);
+        let bytes = req(c.method, c.mtype, mid, Some((k as u32, more, c.szx)), chunk);
         for rep_no in 0..c.dups[k.min(c.dups.len() - 1)] {
             let before = srv.app_calls.len();
             let x = srv.exchange(1, &bytes, &app);
@@ -276,7 +279,7 @@ pub fn run(ctx: &Ctx, rep: &mut Report) {
                 let (szx, len, dv) = &table[d[0] as usize];
                 let (slack, abs) = slacks[d[1] as usize];
                 let (pb, bigger) = preds[d[2] as usize];
-                let c = Case { szx: *szx, body_len: *len, slack, abs_budget: abs, dups: dv.clone(), pred_blocks: pb, pred_bigger: bigger, mid_base: [0u16, 101, 65535, 65534][(d[1] as usize + d[2] as usize) % 4], method: 3 };
+                let c = Case { szx: *szx, body_len: *len, slack, abs_budget: abs, dups: dv.clone(), pred_blocks: pb, pred_bigger: bigger, mid_base: [0u16, 101, 65535, 65534][(d[1] as usize + d[2] as usize) % 4], method: 3, mtype: 0 };
                 run_case("U1-every-length-small-blocks", i, n, &c, ctx, rep);
             },
         );
@@ -331,7 +334,7 @@ pub fn run(ctx: &Ctx, rep: &mut Report) {
                     rep.count("skipped-no-larger-block-size");
                     return;
                 }
-                let c = Case { szx: *szx, body_len: *len, slack, abs_budget: abs, dups: dv.clone(), pred_blocks: pb, pred_bigger: bigger, mid_base: [0u16, 101, 65535][(d[1] as usize + d[2] as usize) % 3], method: 3 };
+                let c = Case { szx: *szx, body_len: *len, slack, abs_budget: abs, dups: dv.clone(), pred_blocks: pb, pred_bigger: bigger, mid_base: [0u16, 101, 65535][(d[1] as usize + d[2] as usize) % 3], method: 3, mtype: 0 };
                 if let Some(b) = abs {
                     if b < budget_of(&Case { abs_budget: None, slack: 0, dups: dv.clone(), ..c }) {
                         rep.count("skipped-budget-does-not-admit-block-size");
@@ -355,12 +358,12 @@ pub fn run(ctx: &Ctx, rep: &mut Report) {
         }
         let preds: [(usize, bool); 3] = [(0, false), (2, false), (1, true)];
         let slacks: [(usize, Option<usize>); 2] = [(0, None), (0, Some(1152))];
-        let radices = [table.len() as u64, METHODS.len() as u64 - 1, preds.len() as u64, slacks.len() as u64];
+        let radices = [table.len() as u64, METHODS.len() as u64 - 1, preds.len() as u64, slacks.len() as u64, 2];
         let n = product(&radices);
         ctx.family(
             rep,
             "U4-other-methods",
-            "uploads with POST, FETCH, PATCH and iPATCH: SZX {0,2,6} x body lengths {0,1,bs-1,bs,bs+1,2bs,2bs+1,3bs+1} x {every block once, every block twice} x abandoned predecessor {none, 2 blocks, 1 block of the next larger size} x budget {exact, 1152}",
+            "uploads with POST, FETCH, PATCH and iPATCH, confirmable and non-confirmable: SZX {0,2,6} x body lengths {0,1,bs-1,bs,bs+1,2bs,2bs+1,3bs+1} x {every block once, every block twice} x abandoned predecessor {none, 2 blocks, 1 block of the next larger size} x budget {exact, 1152}",
             n,
             true,
             |i, rep| {
@@ -372,7 +375,7 @@ pub fn run(ctx: &Ctx, rep: &mut Report) {
                     rep.count("skipped-no-larger-block-size");
                     return;
                 }
-                let c = Case { szx: *szx, body_len: *len, slack, abs_budget: abs, dups: dv.clone(), pred_blocks: pb, pred_bigger: bigger, mid_base: 500, method: METHODS[1 + d[1] as usize] };
+                let c = Case { szx: *szx, body_len: *len, slack, abs_budget: abs, dups: dv.clone(), pred_blocks: pb, pred_bigger: bigger, mid_base: 500, method: METHODS[1 + d[1] as usize], mtype: d[4] as u8 };
                 run_case("U4-other-methods", i, n, &c, ctx, rep);
             },
         );
@@ -400,7 +403,7 @@ pub fn run(ctx: &Ctx, rep: &mut Report) {
                     return;
                 }
                 let payload = body(plen as usize, 9);
-                let bytes = req(method, 7, None, &payload);
+                let bytes = req(method, 0, 7, None, &payload);
                 let mut srv = Server::new(budget, Duration::from_secs(3600));
                 let app = |_c: &AppCall| AppReply { code: 0x44, options: vec![], payload: vec![] };
                 let x = srv.exchange(1, &bytes, &app);
